@@ -260,6 +260,7 @@ class ClientRig:
         loop.settle()
         chunks = self._since(marks)
         info["conns"] = len(chunks)
+        info["chunks"] = chunks
         info["reused_after"] = any(p.lost is None and not p.transport.closing for p, _ in marks) if marks else None
         del loop.captured[:]
         return exc, b"".join(chunks), info
@@ -493,6 +494,166 @@ def build_positions(srv: ServerRig | None, cli: ClientRig | None):
             return mp
         M("mp.subtype", _mpsub, exact=lambda v: b"Content-Type: multipart/" + _u8(v) + b"; boundary=" + B.encode(), filler="mixd")
 
+        # ---- values changed between two serialisations of the same object.  The object is built with the benign
+        # baseline value and serialised once (size read / written to a collector / as_bytes() / sent in a complete
+        # response); then the value under test is put in the same place of the *same* object, which is sent again.
+        # Only the second transmission is judged, by the same oracle as everywhere else.
+        req1 = srv.request("GET", headers={"X-First": "1"})  # carries the first, benign transmission
+        Collect = _collector()
+
+        def _two_phase(first, second, rq2=req):
+            e, out = srv.emit_sync(first, req1)
+            if e is not None:
+                raise RuntimeError(f"harness: the benign first serialisation failed: {e!r}")
+            e, out = srv.emit_sync(second, rq2)
+            return e, out, None
+
+        async def _send(rq, body, mode):
+            resp = web.Response(body=body)
+            if mode == "chunked":
+                resp.enable_chunked_encoding()
+            await resp.prepare(rq)
+            await resp.write_eof()
+
+        def ML(name, build, mutate, firsts=("size", "write", "sent"), **kw):
+            """build(base) -> state dict with state['mp'] (MultipartWriter); mutate(state, v) -> the writer to send."""
+            for fk in firsts:
+                for mode in ("len", "chunked"):
+                    pos = Pos(f"{name}[{fk}][{mode}]", "multipart", None, region="all", late_ok=(mode == "chunked"), cost=5.0, **kw)
+
+                    def run(v, fk=fk, mode=mode, pos=pos):
+                        st: dict = {}
+
+                        async def first(rq):
+                            st.update(build(pos.base_value))
+                            mp = st["mp"]
+                            if fk == "size":
+                                if mp.size is None:
+                                    raise RuntimeError("harness: size unknown")
+                            elif fk == "write":
+                                await mp.write(Collect())
+                            elif fk == "as_bytes":
+                                await mp.as_bytes()
+                            else:
+                                await _send(rq, mp, mode)
+
+                        async def second(rq):
+                            await _send(rq, mutate(st, v), mode)
+
+                        return _two_phase(first, second)
+
+                    pos.run = run
+                    P.append(pos)
+
+        def _mp_probe(hdrs=None):
+            def build(base):
+                mp = MultipartWriter("mixed", boundary=B)
+                mp.append("first part", {"X-One": "1"})
+                part = mp.append_payload(payload.BytesPayload(b"data", headers=hdrs(base) if hdrs else None))
+                mp.append("last part", {"X-Last": "9"})
+                return {"mp": mp, "part": part}
+            return build
+
+        def _set_hdr(name):
+            def mutate(st, v):
+                st["part"].headers[name] = v
+                return st["mp"]
+            return mutate
+
+        def _add_hdr(st, v):
+            st["part"].headers[v] = "val"
+            return st["mp"]
+
+        def _set_disp(quote):
+            def mutate(st, v):
+                st["part"].set_content_disposition("attachment", quote_fields=quote, filename=v)
+                return st["mp"]
+            return mutate
+
+        def _append_part(st, v):
+            st["mp"].append("text", {"X-Probe": v})
+            return st["mp"]
+
+        ML("mp.late.header.value", _mp_probe(lambda b: {"X-Probe": b}), _set_hdr("X-Probe"), firsts=("size", "write", "as_bytes", "sent"), exact=lambda v: b"X-Probe: " + _u8(v))
+        ML("mp.late.header.name", _mp_probe(lambda b: {"X-Probe": "one"}), _add_hdr, exact=lambda v: _u8(v) + b": val", filler="X-abcd")
+        ML("mp.late.content_type", _mp_probe(), _set_hdr("Content-Type"), exact=lambda v: b"Content-Type: " + _u8(v), filler="text/xabc")
+        ML("mp.late.disposition.filename.raw", _mp_probe(), _set_disp(False), exact=lambda v: b'Content-Disposition: attachment; filename="' + _u8(v.replace("\\", "\\\\").replace('"', '\\"')) + b'"', filler="ab.cd")
+        ML("mp.late.disposition.filename.quoted", _mp_probe(), _set_disp(True), prefix=b"Content-Disposition: attachment; filename", filler="ab.cd")
+        ML("mp.late.append.header.value", _mp_probe(), _append_part, exact=lambda v: b"X-Probe: " + _u8(v))
+
+        def _fd_build(base):
+            fd = FormData(quote_fields=False, boundary=B, default_to_multipart=True)
+            fd.add_field("first", "first value")
+            fd.add_field("last", "last value")
+            return {"fd": fd, "mp": fd()}
+
+        def _fd_name(st, v):
+            st["fd"].add_field(v, "value")
+            return st["fd"]()
+
+        def _fd_filename(st, v):
+            st["fd"].add_field("f", b"data", filename=v)
+            return st["fd"]()
+
+        ML("mp.late.formdata.name.raw", _fd_build, _fd_name, firsts=("size", "sent"), exact=lambda v: b'Content-Disposition: form-data; name="' + _u8(v.replace("\\", "\\\\").replace('"', '\\"')) + b'"')
+        ML("mp.late.formdata.filename.raw", _fd_build, _fd_filename, firsts=("size", "sent"), exact=lambda v: b'Content-Disposition: form-data; name="f"; filename="' + _u8(v.replace("\\", "\\\\").replace('"', '\\"')) + b'"', filler="ab.cd")
+
+        # ---- one HTTPException object raised for two requests, changed in between; a response whose field is set twice
+        def _exc_to_response(exc):
+            # what RequestHandler._handle_request does with a raised HTTPException
+            resp = web.Response(status=exc.status, reason=exc.reason, text=exc.text, headers=exc.headers)
+            resp._cookies = exc._cookies
+            return resp
+
+        def SL(name, mkexc, mutate, **kw):
+            pos = Pos(name, "server", None, **kw)
+
+            def run(v, pos=pos):
+                st: dict = {}
+
+                async def first(rq):
+                    st["exc"] = mkexc(pos.base_value)
+                    resp = _exc_to_response(st["exc"])
+                    await resp.prepare(rq)
+                    await resp.write_eof()
+
+                async def second(rq):
+                    mutate(st["exc"], v)
+                    resp = _exc_to_response(st["exc"])
+                    await resp.prepare(rq)
+                    await resp.write_eof()
+
+                return _two_phase(first, second)
+
+            pos.run = run
+            P.append(pos)
+
+        SL("srv.late.httpexception.header.value", lambda b: web.HTTPBadRequest(text="constant", headers={"X-Probe": b}), lambda e, v: e.headers.__setitem__("X-Probe", v), exact=lambda v: b"X-Probe: " + _u8(v))
+        SL("srv.late.httpexception.header.name", lambda b: web.HTTPBadRequest(text="constant", headers={"X-Probe": "one"}), lambda e, v: e.headers.__setitem__(v, "val"), exact=lambda v: _u8(v) + b": val", filler="X-abcd")
+        SL("srv.late.httpexception.cookie.value", lambda b: web.HTTPBadRequest(text="constant"), lambda e, v: e.set_cookie("ck", v), prefix=b"Set-Cookie: ")
+
+        def _reset(first_set, second_set):
+            def mk_for(pos_base):
+                def mk(v):
+                    r = web.Response(body=b"hello")
+                    first_set(r, pos_base())
+                    r.headers  # noqa: B018  (read back between the two settings)
+                    r.content_type  # noqa: B018
+                    second_set(r, v)
+                    return r
+                return mk
+            return mk_for
+
+        def SR(name, first_set, second_set, **kw):
+            holder: dict = {}
+            S(name, _reset(first_set, second_set)(lambda: holder["pos"].base_value), **kw)
+            holder["pos"] = P[-1]
+
+        SR("srv.late.reason.reset", lambda r, b: r.set_status(404, b), lambda r, v: r.set_status(404, v), exact=lambda v: b"HTTP/1.1 404 " + _u8(v), filler="Fine Day")
+        SR("srv.late.header.reset", lambda r, b: r.headers.__setitem__("X-Probe", b), lambda r, v: r.headers.__setitem__("X-Probe", v), exact=lambda v: b"X-Probe: " + _u8(v))
+        SR("srv.late.content_type.reset", lambda r, b: setattr(r, "content_type", b), lambda r, v: setattr(r, "content_type", v), exact=lambda v: b"Content-Type: " + _u8(v), filler="text/plain", base="text/plQain")
+        SR("srv.late.cookie.reset", lambda r, b: r.set_cookie("ck", b), lambda r, v: r.set_cookie("ck", v), prefix=b"Set-Cookie: ")
+
     if cli is not None:
         aiohttp = cli.aiohttp
 
@@ -525,6 +686,53 @@ def build_positions(srv: ServerRig | None, cli: ClientRig | None):
         K("cli.cookie.value", lambda v: {"cookies": {"ck": v}}, prefix=b"Cookie: ")
         K("cli.post.content_type", lambda v: {"_method": "POST", "data": aiohttp.BytesPayload(b"data", content_type=v)}, exact=lambda v: b"Content-Type: " + _u8(v), filler="text/xabc")
         K("cli.post.payload.header.value", lambda v: {"_method": "POST", "data": aiohttp.BytesPayload(b"data", headers={"X-Probe": v})}, exact=lambda v: b"X-Probe: " + _u8(v))
+        # ---- one payload object sent in two requests, a part / payload header changed in between (second request judged)
+        def KL(name, build, mutate, extra=None, **kw):
+            pos = Pos(name, "client", None, kind="request", cost=12.0, **kw)
+
+            def run(v, pos=pos):
+                st = build(pos.base_value)
+                a = dict(extra or {})
+                e1, out1, _i = cli.request("POST", "http://h.test/p/q?k=1", data=st["body"], **a)
+                if e1 is not None or not out1:
+                    raise RuntimeError(f"harness: the benign first request failed: {e1!r}")
+                try:
+                    body = mutate(st, v)
+                except Exception as e:  # refused when set
+                    return e, b"", None
+                return cli.request("POST", "http://h.test/p/q?k=1", data=body, **a)
+
+            pos.run = run
+            P.append(pos)
+
+        def _cli_payload(base):
+            p = aiohttp.BytesPayload(b"data", headers={"X-Probe": base})
+            return {"body": p}
+
+        def _cli_payload_set(st, v):
+            st["body"].headers["X-Probe"] = v
+            return st["body"]
+
+        KL("cli.late.payload.header.value", _cli_payload, _cli_payload_set, exact=lambda v: b"X-Probe: " + _u8(v))
+
+        def _cli_mp(base):
+            mp = aiohttp.MultipartWriter("mixed", boundary="BOUNDxyz")
+            mp.append("first part", {"X-One": "1"})
+            part = mp.append_payload(aiohttp.BytesPayload(b"data", headers={"X-Probe": base}))
+            mp.append("last part", {"X-Last": "9"})
+            return {"body": mp, "part": part}
+
+        def _cli_mp_set(st, v):
+            st["part"].headers["X-Probe"] = v
+            return st["body"]
+
+        def _cli_mp_disp(st, v):
+            st["part"].set_content_disposition("attachment", quote_fields=False, filename=v)
+            return st["body"]
+
+        KL("cli.late.multipart.header.value[len]", _cli_mp, _cli_mp_set, region="all", exact=lambda v: b"X-Probe: " + _u8(v))
+        KL("cli.late.multipart.header.value[chunked]", _cli_mp, _cli_mp_set, extra={"chunked": True}, region="all", late_ok=True, exact=lambda v: b"X-Probe: " + _u8(v))
+        KL("cli.late.multipart.filename.raw[len]", _cli_mp, _cli_mp_disp, region="all", exact=lambda v: b'Content-Disposition: attachment; filename="' + _u8(v.replace("\\", "\\\\").replace('"', '\\"')) + b'"', filler="ab.cd")
         # ---- WebSocket handshake request
         K("ws.protocols", lambda v: {"protocols": (v, "other")}, ws=True, url="http://h.test/ws", exact=lambda v: b"Sec-WebSocket-Protocol: " + _u8(v) + b",other", cost=9.0)
         K("ws.origin", lambda v: {"origin": v}, ws=True, url="http://h.test/ws", exact=lambda v: b"Origin: " + _u8(v), filler="http://ab.cd", cost=9.0)
@@ -739,9 +947,20 @@ def mandatory_codepoints() -> list[int]:
     return sorted(set(range(0x300)) | set(O.SPECIAL) | set(O.SURR_SAMPLE))
 
 
-def plan_codepoints(tier: str, seed: int, family: str, mode_chunked: bool):
+def is_late(name: str) -> bool:
+    """Positions where the value is put into an object that was already serialised once (two serialisations per case)."""
+    return ".late." in name
+
+
+def plan_codepoints(tier: str, seed: int, family: str, mode_chunked: bool, late: bool = False):
     """Returns (individual: {place: [cps]}, bulk: [cps] to be placed in the middle, batch size)."""
     cheap = family == "server"  # full sample at all three places; the other families spread the sample over the places
+    if late:
+        # the serialisers are those of the position's first-serialisation twin, which gets the full plan; what is new here
+        # is the second serialisation of one object: every code point < U+0300 (all C0/C1/DEL), the specials and the
+        # surrogate sample at the three places (thorough: plus everything <= U+30FF and all surrogates)
+        ind = mandatory_codepoints() if tier == "quick" else sorted(set(range(0x3100)) | set(range(0xD800, 0xE000)) | set(O.SPECIAL))
+        return {pl: ind for pl in PLACES}, [], 1
     if tier == "quick":
         full = O.quick_codepoints(seed)
         mand = mandatory_codepoints()
@@ -849,9 +1068,9 @@ COST_US = {"server": 60, "multipart": 140, "client": 220, "ws": 320}
 def injection_shards(tier, seed, nshards):
     units = []
     for name, fam, chk in position_names():
-        ind, bulk, batch = plan_codepoints(tier, seed, fam, chk)
+        ind, bulk, batch = plan_codepoints(tier, seed, fam, chk, is_late(name))
         ncases = sum(len(v) for v in ind.values()) + (len(bulk) // batch + (len(bulk) % batch > 0) if bulk else 0)
-        units.append((ncases * COST_US[fam] / 1e6, name))
+        units.append((ncases * COST_US[fam] * (2.2 if is_late(name) else 1) / 1e6, name))
     total = sum(c for c, _ in units)
     target_cost = total / nshards
     pieces = []
@@ -880,7 +1099,7 @@ def run_injection_shard(spec, rec):
         for name, part, nparts in spec["units"]:
             pos = P[name]
             rng = random.Random(seed * 1000003 + spec["sub"] * 7919 + part * 104729 + sum(map(ord, name)))
-            ind, bulk, batch = plan_codepoints(tier, seed, pos.family, name.endswith("[chunked]"))
+            ind, bulk, batch = plan_codepoints(tier, seed, pos.family, name.endswith("[chunked]"), is_late(name))
             nr = nrand // nparts + 1
             if srv is not None and pos.family in ("server", "multipart"):
                 with srv.loop.running():
@@ -1548,6 +1767,8 @@ def gen_api_case(rng: random.Random, trigger: bool):
             c["compress"] = None
     else:
         c["body"] = rng.choice(TRIGGER_KINDS) if trigger else rng.choice(BODY_KINDS + [None])
+        # one Payload object used as the body of two successive responses (a cached body)
+        c["resend"] = c["body"] is not None and c["body"] != "text" and rng.random() < 0.3
     return c
 
 
@@ -1591,6 +1812,8 @@ def run_api_case(rig: ServerRig, c: dict, scratch: Scratch, rec):
     else:
         if c["body"] is None:
             obj, expected, descr, label = None, b"", {"kind": None}, "None"
+        elif c.get("resend"):
+            obj, expected, descr, label = make_payload(c["body"], rng, scratch)  # a Payload instance
         else:
             obj, expected, descr, label = make_body(c["body"], rng, scratch)
         from aiohttp import FormData
@@ -1606,47 +1829,67 @@ def run_api_case(rig: ServerRig, c: dict, scratch: Scratch, rec):
             await resp.write_eof()
 
     exc, out = rig.emit(sc, req)
-    nob = c["method"] == "HEAD" or c["status"] in (204, 304)
     info = {"label": label, "descr": {k: v for k, v in descr.items() if not k.startswith("_")}}
+    _judge_api_output(c, exc, out, expected, descr, label, "api", V, rec)
+    if c.get("resend") and not V and exc is None and out:
+        from aiohttp import payload as _payload
+
+        if not isinstance(obj, _payload.Payload):
+            raise RuntimeError("harness: resend case without a Payload object")
+        for k in (2, 3):
+            if obj.consumed:
+                # Response.write_eof() closed it; the object says it cannot be sent again
+                rec.count("grey:resend-of-consumed-payload:" + label)
+                break
+            exc, out = rig.emit(sc, req)
+            _judge_api_output(c, exc, out, expected, descr, label, "api:resend", V, rec)
+            if V:
+                break
+            rec.count("api:resend-ok:" + label)
+    return V, info
+
+
+def _judge_api_output(c, exc, out, expected, descr, label, what, V, rec):
+    """what: 'api' for the (first) response, 'api:resend' for a later response built around the same Payload object."""
+    nob = c["method"] == "HEAD" or c["status"] in (204, 304)
     if exc is not None:
         if not out:
-            rec.count("api:refused:" + _raiser(exc))
-            return V, info
-        V.append((f"api:raised-after-bytes:{label}:{_raiser(exc)}", f"{exc!r} after {len(out)} bytes"))
-        return V, info
+            rec.count(f"{what}:refused:" + _raiser(exc))
+            return
+        V.append((f"{what}:raised-after-bytes:{label}:{_raiser(exc)}", f"{exc!r} after {len(out)} bytes"))
+        return
     try:
         m = R.read_response(out, 0, c["method"].encode())
     except R.Incomplete as i:
         pm = i.partial
         have = len(pm.body) if isinstance(pm, R.Msg) else -1
         cl = pm.get(b"content-length") if isinstance(pm, R.Msg) else []
-        V.append((f"api:incomplete-{i.where}:{label}", f"message incomplete ({i.where}): declared {cl}, {have} body bytes on the wire; expected content {len(expected) if expected is not None else '?'} bytes"))
-        return V, info
+        V.append((f"{what}:incomplete-{i.where}:{label}", f"message incomplete ({i.where}): declared {cl}, {have} body bytes on the wire; expected content {len(expected) if expected is not None else '?'} bytes"))
+        return
     except R.Reject as r:
         ek = (c.get("eof_data") or [None])[0]
         if r.cls.startswith("chunk") and ek in ("mv_I", "mv_H", "mv_d", "mv_2d"):
-            V.append(("api:chunk-syntax:write_eof:multibyte-items", f"{r.cls} after StreamResponse.write_eof(<memoryview of {ek}>): ...{out[-60:]!r}"))
+            V.append((f"{what}:chunk-syntax:write_eof:multibyte-items", f"{r.cls} after StreamResponse.write_eof(<memoryview of {ek}>): ...{out[-60:]!r}"))
         else:
-            V.append((f"api:reader-rejects:{r.cls}:{label}", f"{r.cls} {r.detail}: {out[:160]!r}"))
-        return V, info
-    rec.count("api:framing:" + m.framing)
+            V.append((f"{what}:reader-rejects:{r.cls}:{label}", f"{r.cls} {r.detail}: {out[:160]!r}"))
+        return
+    rec.count(f"{what}:framing:" + m.framing)
     if m.end != len(out):
         if nob:
             # a response that cannot have a body (HEAD / 1xx / 204 / 304, RFC 9112 6.3) is followed by bytes
             how = "content-encoding" if m.get(b"content-encoding") else "plain"
-            V.append((f"api:body-bytes-on-bodyless-response:{how}", f"{len(out) - m.end} bytes {out[m.end:m.end+24]!r} follow the head of a {c['method']} {m.status} response ({label})"))
+            V.append((f"{what}:body-bytes-on-bodyless-response:{how}", f"{len(out) - m.end} bytes {out[m.end:m.end+24]!r} follow the head of a {c['method']} {m.status} response ({label})"))
         else:
-            V.append((f"api:bytes-after-message:{label}", f"{len(out) - m.end} bytes after the end of the {m.framing}-framed message (declared {m.get(b'content-length')})"))
-        return V, info
+            V.append((f"{what}:bytes-after-message:{label}", f"{len(out) - m.end} bytes after the end of the {m.framing}-framed message (declared {m.get(b'content-length')})"))
+        return
     if nob:
-        rec.count("api:no-body-response")
-        return V, info
+        rec.count(f"{what}:no-body-response")
+        return
     ce = m.get(b"content-encoding")
     cenc = ce[0].decode() if ce else None
     if cenc:
-        rec.count("api:content-encoding:" + cenc)
-    check_body(m, expected, descr, cenc, label, V, "api")
-    return V, info
+        rec.count(f"{what}:content-encoding:" + cenc)
+    check_body(m, expected, descr, cenc, label, V, what)
 
 
 def run_api_shard(spec, rec):
@@ -1699,6 +1942,12 @@ def gen_client_case(rng: random.Random, trigger: bool):
         "bseed": rng.randrange(2**32),
         "expect100": rng.random() < 0.1,
     }
+    # the peer answers with redirects first: 307/308 (and 301/302 for PUT/PATCH) make the client transmit the same
+    # payload object again, once per hop; 303 (and 301/302 for POST) turn the request into a bodiless GET
+    r = rng.random()
+    if r < 0.45:
+        c["redirects"] = [rng.choice((307, 308, 307, 308, 301, 302, 303)) for _ in range(rng.choice((1, 1, 2, 3)))]
+        c["expect100"] = False
     return c
 
 
@@ -1711,9 +1960,12 @@ def run_client_case(cli: ClientRig, c: dict, scratch: Scratch, rec):
         kw["chunked"] = True
     if c["compress"]:
         kw["compress"] = c["compress"]
+    redirects = c.get("redirects") or []
     if c.get("expect100"):
         kw["expect100"] = True
         cli.replies = [b"HTTP/1.1 100 Continue\r\n\r\n", cli.reply]
+    elif redirects:
+        cli.replies = [b"HTTP/1.1 %d Moved\r\nLocation: /hop%d\r\nContent-Length: 0\r\n\r\n" % (st, i + 1) for i, st in enumerate(redirects)] + [cli.reply]
     try:
         exc, out, rinfo = cli.request(c["method"], "http://h.test/upload", **kw)
     finally:
@@ -1725,30 +1977,58 @@ def run_client_case(cli: ClientRig, c: dict, scratch: Scratch, rec):
         else:
             rec.count("clientbody:refused:" + type(exc).__name__)
         return V, info
-    try:
-        m = R.read_request(out, 0)
-    except R.Incomplete as i:
-        pm = i.partial
-        have = len(pm.body) if isinstance(pm, R.Msg) else -1
-        cl = pm.get(b"content-length") if isinstance(pm, R.Msg) else []
-        V.append((f"clientbody:incomplete-{i.where}:{label}", f"request incomplete ({i.where}): declared {cl}, {have} body bytes on the wire, content is {len(expected) if expected is not None else '?'} bytes; exc={exc!r}"))
-        return V, info
-    except R.Reject as r:
-        V.append((f"clientbody:reader-rejects:{r.cls}:{label}", f"{r.cls} {r.detail}: {out[:160]!r}"))
-        return V, info
-    rec.count("clientbody:framing:" + m.framing)
-    if m.end != len(out):
-        V.append((f"clientbody:bytes-after-message:{label}", f"{len(out) - m.end} bytes after the end of the {m.framing}-framed request (declared {m.get(b'content-length')}); exc={exc!r}"))
-        return V, info
-    ce = m.get(b"content-encoding")
-    cenc = ce[0].decode() if ce else None
-    if cenc:
-        rec.count("clientbody:content-encoding:" + cenc)
-    if cenc and not m.body and (expected == b"" or descr.get("n") == 0):
-        # an empty payload object (empty file): nothing is written at all, the coding is only announced
-        rec.count("grey:empty-body-with-content-encoding")
-        return V, info
-    check_body(m, expected, descr, cenc, label, V, "clientbody")
+    # every request message on the wire, in order: message 0 is the request, message k the k-th replay after a redirect
+    idx = 0
+    for chunk in rinfo.get("chunks") or [out]:
+        pos = 0
+        while pos < len(chunk):
+            what = "clientbody" if idx == 0 else "clientbody:replay"
+            if idx > len(redirects):
+                V.append((f"clientbody:bytes-after-message:{label}", f"{len(chunk) - pos} bytes after the end of the last expected request message ({idx} read); exc={exc!r}"))
+                return V, info
+            try:
+                m = R.read_request(chunk, pos)
+            except R.Incomplete as i:
+                pm = i.partial
+                have = len(pm.body) if isinstance(pm, R.Msg) else -1
+                cl = pm.get(b"content-length") if isinstance(pm, R.Msg) else []
+                V.append((f"{what}:incomplete-{i.where}:{label}", f"request message {idx} incomplete ({i.where}): declared {cl}, {have} body bytes on the wire, content is {len(expected) if expected is not None else '?'} bytes; exc={exc!r}"))
+                return V, info
+            except R.Reject as r:
+                V.append((f"{what}:reader-rejects:{r.cls}:{label}", f"message {idx}: {r.cls} {r.detail}: {chunk[pos:pos + 160]!r}"))
+                return V, info
+            rec.count(f"{what}:framing:" + m.framing)
+            pos = m.end
+            if idx > 0 and m.method == b"GET":
+                # redirect that drops the body (303; 301/302 after POST): the follow-up is a complete message (any truthful
+                # framing of nothing) that carries none of the payload
+                if m.body:
+                    V.append((f"clientbody:replay:body-on-get:{label}", f"GET after a redirect is framed {m.framing} with {len(m.body)} body bytes"))
+                    return V, info
+                rec.count("clientbody:replay:get-without-body:" + m.framing)
+                idx += 1
+                continue
+            ce = m.get(b"content-encoding")
+            cenc = ce[0].decode() if ce else None
+            if cenc:
+                rec.count(f"{what}:content-encoding:" + cenc)
+            if cenc and not m.body and (expected == b"" or descr.get("n") == 0):
+                # an empty payload object (empty file): nothing is written at all, the coding is only announced
+                rec.count("grey:empty-body-with-content-encoding")
+            else:
+                check_body(m, expected, descr, cenc, label, V, what)
+                if V:
+                    return V, info
+            if idx > 0:
+                rec.count("clientbody:replay:body-ok:" + label)
+            idx += 1
+    if redirects:
+        if idx == len(redirects) + 1:
+            rec.count("clientbody:redirects-followed")
+        elif exc is not None:
+            rec.count("clientbody:redirect-not-followed:" + type(exc).__name__ + ":" + label)  # a refusal, not a lie
+        else:
+            rec.count("info:clientbody:fewer-messages-than-hops")
     if exc is not None:
         rec.count("clientbody:exception-after-complete-request:" + type(exc).__name__)
     return V, info
@@ -1766,7 +2046,7 @@ def run_clientbody_shard(spec, rec):
             rec.case(("clientbody", c), True)
             rec.count("clientbody-cases:" + ("trigger" if trigger else "main"))
             rec.count("clientbody-body:" + str(info["label"]))
-            rec.sig("clientbody-shape", (c["method"], c["body"], c["chunked"], c["compress"]))
+            rec.sig("clientbody-shape", (c["method"], c["body"], c["chunked"], c["compress"], tuple(c.get("redirects") or ())))
             for mech, summ in V:
                 rec.violation(mech, f"[{c}] {summ} {info['descr']}", {"kind": "clientbody", "case": c})
             if i % 299 == 0:
@@ -1891,6 +2171,7 @@ def run_payload_case(rig: ServerRig, c: dict, scratch: Scratch, rec):
     if expected is not None and data != expected and not V:
         V.append((f"payload-content-mismatch:{cls}", _diff(data, expected)))
     total = w.n
+    fresh_wwl: dict = {}  # n -> what a fresh object's write_with_length(n) emitted (when judged fine)
     # write_with_length(n): min(n, size) bytes, a prefix of the full content
     for n in c["limits"]:
         p2, _e, _d, _c = fresh()
@@ -1919,8 +2200,99 @@ def run_payload_case(rig: ServerRig, c: dict, scratch: Scratch, rec):
         if not data.startswith(d2) and cls != "TextIOPayload":
             V.append((f"payload-write_with_length-not-prefix:{cls}", f"write_with_length({n_eff}) emitted bytes that are not a prefix of the full content"))
             break
+        fresh_wwl[n_eff] = d2
         rec.count("payload:wwl-ok:" + cls)
+    # the same object transmitted several times: every transmission must be what a fresh object emits
+    run_resend_program(rig, fresh, c.get("resend") or [], cls, size, data, fresh_wwl, total, info, rec, V)
     return V, info
+
+
+RESEND_OPS = ("size", "write", "write", "wwl", "wwl", "decode", "as_bytes")
+
+
+def gen_resend_program(rng: random.Random, limits):
+    """Operations applied in order to ONE payload object: ['size'] ['write'] ['wwl', n] ['decode'] ['as_bytes'].
+    At least two of them transmit (write / write_with_length)."""
+    ops = []
+    nt = 0
+    for _ in range(rng.randint(2, 6)):
+        k = rng.choice(RESEND_OPS)
+        if k == "wwl":
+            ops.append(["wwl", rng.choice(limits)])
+        else:
+            ops.append([k])
+        nt += k in ("write", "wwl")
+    while nt < 2:
+        ops.append(["write"] if rng.random() < 0.6 else ["wwl", rng.choice(limits)])
+        nt += 1
+    return ops
+
+
+def run_resend_program(rig, fresh, ops, cls, size1, data1, fresh_wwl, total, info, rec, V):
+    """One payload object, several transmissions with size reads / decode() / as_bytes() in between.
+    Oracle (differential, follows from 'a payload's declared size equals the bytes it writes' holding for every
+    transmission): while the object does not report itself consumed, its size stays what it was, write() emits
+    exactly what a fresh object's write() emits and write_with_length(n) what a fresh object's emits for that n.
+    (What a fresh object emits is judged against size / the supplied content by the caller.)"""
+    if not ops:
+        return
+    Collect = _collector()
+    p, _e, _d, _c = fresh()
+    k = 0  # transmissions so far
+    for op in ops:
+        what = op[0]
+        if what in ("decode", "as_bytes"):
+            # reads the underlying object between two transmissions (what a retry / logging middleware does)
+            try:
+                if what == "decode":
+                    p.decode()
+                else:
+                    st, task = rig.loop.run_coro(p.as_bytes(), max_iters=400000)
+                    if st != "until":
+                        raise RuntimeError("harness: as_bytes did not finish")
+                    task.result()
+                rec.count(f"payload:resend-between:{what}:ok")
+            except RuntimeError:
+                raise
+            except Exception as e:
+                rec.count(f"payload:resend-between:{what}:{type(e).__name__}")
+            continue
+        if p.consumed:
+            # the object says it cannot be sent again (documented: Payload.consumed; the client refuses to replay it)
+            rec.count("grey:resend-of-consumed-payload:" + cls)
+            return
+        try:
+            declared = p.size
+        except Exception as e:
+            V.append((f"payload-resend-size-raised:{cls}:{_raiser(e)}", f"size raised {e!r} before transmission {k + 1}; ops {ops}"))
+            return
+        if declared != size1:
+            V.append((f"payload-resend-size-changed:{cls}", f"size is {declared} before transmission {k + 1}, a fresh object declares {size1}; ops {ops}; {info['descr']}"))
+            return
+        if what == "size":
+            continue
+        w = Collect()
+        if what == "write":
+            coro, want, how = p.write(w), data1, "write()"
+        else:
+            n = op[1]
+            n_eff = total + n if n < 0 else n
+            if n_eff not in fresh_wwl:
+                continue
+            coro, want, how = p.write_with_length(w, n_eff), fresh_wwl[n_eff], f"write_with_length({n_eff})"
+        st, task = rig.loop.run_coro(coro, max_iters=400000)
+        if st != "until":
+            raise RuntimeError("harness: payload re-transmission did not finish")
+        k += 1
+        if task.exception() is not None:
+            V.append((f"payload-resend-raised:{cls}:{_raiser(task.exception())}", f"transmission {k} ({how}) raised {task.exception()!r}; ops {ops}"))
+            return
+        got = b"".join(w.chunks)
+        if got != want:
+            V.append((f"payload-resend-mismatch:{cls}", f"transmission {k} of one object ({how}) emitted {len(got)} bytes, declared size {declared}; a fresh object emits {len(want)} bytes; ops {ops}; {info['descr']}"))
+            return
+        rec.count(f"payload:resend-ok:{cls}:{'first' if k == 1 else 'again'}")
+    rec.sig("resend-shape", (cls, [o[0] for o in ops]))
 
 
 def run_payload_shard(spec, rec):
@@ -1932,6 +2304,7 @@ def run_payload_shard(spec, rec):
         for i in range(spec["n"]):
             kind = kinds[i % len(kinds)] if i < 4 * len(kinds) else rng.choice(kinds)
             c = {"kind": kind, "bseed": rng.randrange(2**32), "limits": sorted({0, 1, rng.choice((2, 3, 7, 100, 65536, 65537)), -1, -2, 10**9, -0 - rng.randint(0, 50)} - {-0}) + [rng.randint(0, 300)]}
+            c["resend"] = gen_resend_program(rng, c["limits"])
             V, info = run_payload_case(rig, c, scratch, rec)
             rec.case(("payload", c), True)
             rec.count("payload-cases:" + info["cls"])
